@@ -295,11 +295,15 @@ def main(argv, here):
                   % (pid, f["what"], f["id"], known_hits.get(f["id"], 0), note))
         else:
             print("NOTE: known finding %s no longer observed; retire the entry" % f["id"])
-    if harness_errors:
+    if harness_errors and not confirmed:
         for e in harness_errors[:5]:
             print("HARNESS-ERROR %s" % e.strip()[-3000:])
         return 2
     if confirmed:
+        # a violation that reproduced in a fresh interpreter stands on its own; other candidates that did not reproduce
+        # (state left behind by earlier cases of a worker on a changed tree) are reported as notes, not as the verdict
+        for e in harness_errors[:3]:
+            print("HARNESS-NOTE %s" % e.strip()[-600:].replace("\n", " | "))
         seen = set()
         for v, path in confirmed:
             if len(seen) >= MAX_LINES:
